@@ -298,6 +298,7 @@ class RecombPart:
                     ch[0][vi] = f[(fh + sum(1 for r in rf if vi >= r)) % 2][vi]
                     ch[1][vi] = m[(mh + sum(1 for r in rm if vi >= r)) % 2][vi]
                 c["haps"][child][name] = ch
+            c["ped_order"] = list(draw(st.permutations(names[2:])))
             c["genetic"] = draw(st.sampled_from([True, True, False]))
             c["recombrate"] = draw(st.sampled_from([1.26, 1.26, 1000.0, 1e5]))
             if draw(st.booleans()):
@@ -336,7 +337,7 @@ class RecombPart:
         ref = G.write_fasta(case["contigs"], os.path.join(d, "ref.fa"))
         vcf = G.write_vcf(case, os.path.join(d, "in.vcf"))
         bam = G.write_bam(case, reads, os.path.join(d, "reads.bam"))
-        ped = G.write_ped([["father", "mother", ch] for ch in names[2:]], os.path.join(d, "fam.ped"))
+        ped = G.write_ped([["father", "mother", ch] for ch in case.get("ped_order", names[2:])], os.path.join(d, "fam.ped"))
         rl = os.path.join(d, "recomb.tsv")
         out, trace = P.run_phase(d, vcf, [bam], reference=ref, ped=ped, recombination_list_filename=rl,
                                  genetic_haplotyping=case["genetic"], recombrate=case["recombrate"])
